@@ -1449,15 +1449,18 @@ func call(n *node) {
 				fn := detachedCopy(bf)
 				id := f.runid()
 				go func() {
+					verifGoStart(n.interp, 0)
 					if id != n.interp.runid() {
 						// The evaluation was cancelled before the goroutine could start.
 						return
 					}
+					verifGoStart(n.interp, 1)
 					if hasVariadicArgs {
 						fn.CallSlice(in)
 					} else {
 						fn.Call(in)
 					}
+					verifGoStart(n.interp, 2)
 				}()
 				return tnext
 			}
